@@ -142,11 +142,11 @@ def rule_fallback(check):
     cs = prog.fn("rewriter::chain_source_maps")
     # the composition runs exactly under: chaining configured, original map present, rewrite map parsed -
     # whether written with bool::then / and_then closures, `?`, or guard clauses
-    sites = [n for n in hir.calls_in(cs.body, name="add_raw")]
+    sites = _emit_calls(cs.body)
     if not sites:
         # the emission sits in a helper / builder method: the conditions are those of the call leading to it
         for g in prog.flat(cs, 3):
-            if g is cs or not any(True for _ in hir.calls_in(g.body, name="add_raw")):
+            if g is cs or not _emit_calls(g.body):
                 continue
             cur = g
             for _ in range(4):
@@ -188,6 +188,21 @@ def rule_fallback(check):
         check.expect(all(r[0] == "param" and r[2] == 0 for r, p in os_), R, R + "/parses-rewrite-map", hir.loc(n), "the rewrite map (param source_map) is parsed", "chain_source_maps parses %s" % sorted(origin_str(o) for o in os_))
 
 
+def _emit_calls(body):
+    """the calls that emit a token into the chained map: SourceMapBuilder::add_raw, or ::add (which
+    interns the source / the name with add_source / add_name and then calls add_raw itself)"""
+    out = []
+    for x in hir.walk(body):
+        if not hir.is_call(x) or not x.get("callee"):
+            continue
+        nm = x["callee"]["name"]
+        if nm == "add_raw":
+            out.append(x)
+        elif nm == "add" and hir.call_args(x) and re.sub(r"^&(mut )?", "", hir.peel(hir.call_args(x)[0]).get("ty") or "").split("<")[0].endswith("::SourceMapBuilder"):
+            out.append(x)
+    return out
+
+
 def _root_calls(prog, pv, f, e):
     """names of the calls the value of e ultimately comes from (parameters of helpers followed to their call sites)"""
     from ..xformrules import deep_origins
@@ -210,7 +225,7 @@ def rule_chain(check):
     cs = prog.fn("rewriter::chain_source_maps")
     pv = Prov(prog)
     flat = prog.flat(cs, 3)
-    adds = [(g, n) for g in flat for n in hir.calls_in(g.body, name="add_raw")]
+    adds = [(g, n) for g in flat for n in _emit_calls(g.body)]
     check.floor(R, "add_raw sites", len(adds), 1)
 
     def getter_root(g, x):
@@ -238,6 +253,11 @@ def rule_chain(check):
             ok = ok and not any(c in ("parse_source_map", "tokens") for c in ro)
         check.expect(ok and bool(lk), R, R + "/lookup", hir.loc(n), "original = original_source.lookup_token(token.src_line, token.src_col)", "lookup_token is not fed the rewrite token's source position")
         for i, getter, adder in ((4, "get_source", "add_source"), (5, "get_name", "add_name")):
+            if n["callee"]["name"] == "add":
+                # the interning variant takes the source / the name itself
+                got_ = getter_root(g, a[i])
+                check.expect(got_ == (getter, frozenset({"lookup_token"})), R, "%s/%s" % (R, getter), hir.loc(n), "builder.add(.., original.%s(), ..)" % getter, "the %s handed to builder.add is not the original token's %s() (%s)" % (getter[4:], getter, (got_[0], sorted(got_[1]))))
+                continue
             uses = [(ug, x) for ug in flat for x in hir.calls_in(ug.body, name=adder)]
             src_ok = bool(uses)
             from ..xformrules import deep_origins as _deep
@@ -270,7 +290,7 @@ def rule_chain(check):
             for x in ug.nodes():
                 if x.get("k") == "MethodCall" and re.sub(r"^&(mut )?", "", hir.peel(x["recv"]).get("ty") or "").split("<")[0].endswith("::SourceMapBuilder"):
                     used.setdefault(x["method"], x)
-        allowed = {"add_raw", "add_source", "add_name", "into_sourcemap"}
+        allowed = {"add_raw", "add", "add_source", "add_name", "into_sourcemap"}
         for m, x in sorted(used.items()):
             check.expect(m in allowed, R, "%s/builder-effect/%s" % (R, m), hir.loc(x), "builder.%s (reviewed)" % m, "unreviewed effect builder.%s() on the chained map: the composition is defined by add_source/add_name/add_raw only (sources returned by the original token already include its sourceRoot)" % m)
         news = [(ug, x) for ug in flat for x in hir.calls_in(ug.body, name="new") if prog.resolve_local(x) is None and "SourceMapBuilder" in ((x.get("callee") or {}).get("path") or "") + ((x.get("callee") or {}).get("resolved") or "") and hir.call_args(x)]
